@@ -126,8 +126,9 @@ def factor_rule(chk, repo, rid, fi, mode, stmts, rank, ret_index=None, what='ret
         if const_scale:
             from ..factor import real_form
             prod, scale = real_form(prod), real_form(scale)
+        from ..factor import under_facts
         chk.ob(rid, w, f'{fi.name}(mode={mode!r}) [{ftxt}]: ({what}) x (scale applied to the boundary tensor) == T',
-               prod == TT, f'{what} = {r}, scale = {scale}, product = {prod}',
+               prod == TT or under_facts(prod, facts) == TT, f'{what} = {r}, scale = {scale}, product = {prod}',
                key=f'{rid}|{fi.qual}|{mode}|{ftxt}|product')
         n += 2
         if const_scale:
